@@ -133,6 +133,10 @@ func (g *Gen) topts() TOpts {
 		if r.P(1, 2) {
 			o.Params = [][2]string{{"min", "overridden"}, {"z", "1"}}
 		}
+		if r.P(1, 3) {
+			// values that hold other parameters' placeholders: the substitution order shows in the message
+			o.Params = [][2]string{{"min", "{{z}}"}, {"z", "{{min}}"}, {"max", "{{z}}"}, {"len", "{{a}}"}, {"a", "{{len}}{{z}}"}, {"gt", "{{z}}"}, {"lt", "{{a}}"}}
+		}
 	}
 	return o
 }
@@ -235,6 +239,9 @@ func (g *Gen) primTests(pk string) []TestSpec {
 				t.S = rng.Pick(r, []string{"a", "ab", "", "é", "1", "x", "!"})
 			case "oneof":
 				k := r.Range(1, 3)
+				if r.P(1, 5) {
+					k = r.Range(9, 20) // a long enum
+				}
 				for j := 0; j < k; j++ {
 					t.Args = append(t.Args, D{K: "s", S: rng.Pick(r, strPool)})
 				}
@@ -246,6 +253,9 @@ func (g *Gen) primTests(pk string) []TestSpec {
 			if r.P(1, 5) {
 				t.Name = "oneof"
 				k := r.Range(1, 3)
+				if r.P(1, 5) {
+					k = r.Range(9, 20) // a long enum
+				}
 				for j := 0; j < k; j++ {
 					t.Args = append(t.Args, g.primD(pk, true))
 				}
